@@ -3,7 +3,7 @@
 From Coq Require Import List ZArith Bool Permutation Sorted.
 From IB Require Import Engine.Val Engine.Ops Engine.AMap Engine.Nodes Engine.Exec Engine.Planner
      Engine.Lang Engine.Denote Engine.Static Engine.Sorted Proofs.EngineElementwise
-     Proofs.EngineSorted.
+     Proofs.EngineSorted Engine.Auto Proofs.EngineAuto.
 Import ListNotations.
 
 (* the chain the builders produce for a source followed by element-wise transforms: one Stateless
@@ -89,6 +89,30 @@ Theorem c02_sorted_program_as_written : forall which s steps parts,
     run_sorted which (run_seq s steps) = Ok (sorted_collect which (denote s steps)) /\
     run_sorted which (run_par s steps parts) = Ok (sorted_collect which (denote s steps)).
 Proof. exact program_sorted_as_written. Qed.
+
+(* `partitions: None` (collect_par(None, None), the commonest call): the runner takes the
+   planner's suggestion - about 64 000 rows per partition clamped to [hw, 8 hw], hw = max(cpus, 2) -
+   or 2 hw when the source cannot tell its length.  The suggestion is never 0 and its clamp never
+   has min > max; and whatever is chosen, on a machine with ANY number of cores, an element-wise
+   program returns the list interpretation. *)
+Theorem c02_suggested_partitions_range : forall n cpus p,
+    suggest_partitions (Some n) cpus = Some p ->
+    (Nat.max cpus 2 <= p <= 8 * Nat.max cpus 2)%nat /\ (2 <= p)%nat.
+Proof. exact suggest_partitions_range. Qed.
+Theorem c02_auto_partitions_as_written : forall s steps requested len_hint cpus,
+    forallb elementwise_step steps = true -> well_typed (src_tag s) steps = true ->
+    reorder_noop (fuse (cs_chain (compile s steps))) ->
+    run_par_auto s steps requested len_hint cpus = Ok (denote s steps).
+Proof. exact program_as_written_auto. Qed.
+
+Example c02_auto_example :
+  suggest_partitions (Some 1000%nat) 16 = Some 16%nat /\
+  suggest_partitions (Some (200 * 64 * 1000)%nat) 16 = Some 128%nat /\
+  choose_parts None None 16 = 32%nat /\ choose_parts (Some 5%nat) (Some 9%nat) 16 = 5%nat /\
+  let s := SrcVec TU [VInt 1; VInt 2; VInt 3; VInt 4; VInt 5] in
+  let steps := [SMap (FMul 3); SFilter (PNot (PModEq 2 0))] in
+  run_par_auto s steps None (Some 5%nat) 16 = Ok [VInt 3; VInt 9; VInt 15].
+Proof. repeat split; vm_compute; reflexivity. Qed.
 
 Example c02_sorted_example :
   let rows := [VPair (VInt 2) (VInt 9); VPair (VInt 1) (VInt 7); VPair (VInt 2) (VInt 3);
